@@ -27,11 +27,13 @@ pub struct PropDef {
     pub rule: &'static str,
     /// custom runner (fault-enumeration style checks); when set, `profile`/`oracle` only build the input
     pub custom: Option<fn(&PropDef, u64, &Cfg, &[Ev]) -> RunReport>,
+    /// the workload can make the process abort, exhaust memory or hang: run under the allocator cap, announce runs, watchdog
+    pub abort_prone: bool,
     pub probes: &'static [&'static str],
     pub fault_kinds: &'static [&'static str],
 }
 
-#[derive(Clone, Debug)]
+#[derive(Clone, Debug, Serialize, Deserialize)]
 pub enum Verdict {
     Held,
     Violation(Violation),
@@ -40,7 +42,7 @@ pub enum Verdict {
     HarnessError(String),
 }
 
-#[derive(Clone, Debug)]
+#[derive(Clone, Debug, Serialize, Deserialize)]
 pub struct RunReport {
     pub verdict: Verdict,
     pub stats: Stats,
@@ -169,7 +171,7 @@ pub fn shrink(prop: &PropDef, run_seed: u64, cfg: &Cfg, evs: &[Ev], want: &Viola
     if (want.step as usize) < cur.len() && want.step > 0 {
         let cand: Vec<Ev> = cur[..want.step as usize].to_vec();
         tried += 1;
-        if let Some(v) = same(&execute(prop, run_seed, cfg, &cand)) {
+        if let Some(v) = same(&execute_safe(prop, run_seed, cfg, &cand)) {
             cur = cand;
             cur_v = v;
         }
@@ -184,7 +186,7 @@ pub fn shrink(prop: &PropDef, run_seed: u64, cfg: &Cfg, evs: &[Ev], want: &Viola
             cand.extend_from_slice(&cur[..i]);
             cand.extend_from_slice(&cur[end..]);
             tried += 1;
-            if let Some(v) = same(&execute(prop, run_seed, cfg, &cand)) {
+            if let Some(v) = same(&execute_safe(prop, run_seed, cfg, &cand)) {
                 cur = cand;
                 cur_v = v;
                 progress = true;
@@ -200,4 +202,199 @@ pub fn shrink(prop: &PropDef, run_seed: u64, cfg: &Cfg, evs: &[Ev], want: &Viola
         }
     }
     (cur, cur_v, tried)
+}
+
+// ------------------------------------------------------------------------------------------------
+// process isolation for workloads that can abort, exhaust memory or hang
+
+/// shared page through which a forked child reports where it is (readable by the parent after the child died)
+struct SharedCtx {
+    ptr: *mut u8,
+}
+
+const SHARED_LEN: usize = 4096;
+
+impl SharedCtx {
+    fn new() -> SharedCtx {
+        let p = unsafe {
+            libc::mmap(
+                std::ptr::null_mut(),
+                SHARED_LEN,
+                libc::PROT_READ | libc::PROT_WRITE,
+                libc::MAP_SHARED | libc::MAP_ANONYMOUS,
+                -1,
+                0,
+            )
+        };
+        SharedCtx { ptr: p as *mut u8 }
+    }
+    fn read(&self) -> String {
+        unsafe {
+            let len = (*(self.ptr as *const u32)) as usize;
+            let len = len.min(SHARED_LEN - 8);
+            let s = std::slice::from_raw_parts(self.ptr.add(8), len);
+            String::from_utf8_lossy(s).to_string()
+        }
+    }
+}
+
+impl Drop for SharedCtx {
+    fn drop(&mut self) {
+        unsafe {
+            libc::munmap(self.ptr as *mut libc::c_void, SHARED_LEN);
+        }
+    }
+}
+
+thread_local! {
+    static SHARED_PTR: std::cell::Cell<usize> = const { std::cell::Cell::new(0) };
+}
+
+/// called by the monitor whenever the context changes; writes it to the shared page when running in a forked child
+pub fn publish_context(s: &str) {
+    let p = SHARED_PTR.with(|c| c.get());
+    if p != 0 {
+        unsafe {
+            let ptr = p as *mut u8;
+            let n = s.len().min(SHARED_LEN - 8);
+            std::ptr::copy_nonoverlapping(s.as_ptr(), ptr.add(8), n);
+            *(ptr as *mut u32) = n as u32;
+        }
+    }
+}
+
+pub const CAP_SINGLE: usize = 1 << 30;
+pub const CAP_TOTAL: usize = 768 << 20;
+pub const RUN_TIMEOUT_MS: i32 = 10_000;
+
+fn normalise_ctx(s: &str) -> String {
+    // digits carry run-specific offsets: collapse them
+    let mut out = String::new();
+    let mut last = false;
+    for ch in s.chars() {
+        if ch.is_ascii_digit() {
+            if !last {
+                out.push('#');
+            }
+            last = true;
+        } else {
+            out.push(ch);
+            last = false;
+        }
+    }
+    out
+}
+
+/// like `execute`, but in a forked child when the property is abort-prone: a child that dies (allocator cap,
+/// abort, stack overflow, kill on timeout) becomes a `no_abort` violation instead of taking the worker down
+pub fn execute_safe(prop: &PropDef, run_seed: u64, cfg: &Cfg, evs: &[Ev]) -> RunReport {
+    if !prop.abort_prone {
+        return execute(prop, run_seed, cfg, evs);
+    }
+    let shared = SharedCtx::new();
+    let mut fds = [0i32; 2];
+    if unsafe { libc::pipe(fds.as_mut_ptr()) } != 0 {
+        return execute(prop, run_seed, cfg, evs);
+    }
+    let pid = unsafe { libc::fork() };
+    if pid == 0 {
+        // child
+        unsafe { libc::close(fds[0]) };
+        SHARED_PTR.with(|c| c.set(shared.ptr as usize));
+        monitor::meter_start(CAP_SINGLE, CAP_TOTAL);
+        let rep = execute(prop, run_seed, cfg, evs);
+        let (peak, largest) = monitor::meter_stop();
+        let mut rep = rep;
+        rep.stats.add("meter.runs", 1);
+        rep.stats.counters.insert("meter.peak_bytes_max".into(), peak as u64);
+        rep.stats.counters.insert("meter.largest_request_max".into(), largest as u64);
+        let s = serde_json::to_vec(&rep).unwrap_or_default();
+        let mut off = 0;
+        while off < s.len() {
+            let n = unsafe { libc::write(fds[1], s[off..].as_ptr() as *const libc::c_void, s.len() - off) };
+            if n <= 0 {
+                break;
+            }
+            off += n as usize;
+        }
+        unsafe { libc::_exit(0) };
+    }
+    unsafe { libc::close(fds[1]) };
+    // parent: read until EOF with an overall timeout
+    let mut buf: Vec<u8> = Vec::new();
+    let t0 = std::time::Instant::now();
+    let mut timed_out = false;
+    loop {
+        let remaining = RUN_TIMEOUT_MS as i64 - t0.elapsed().as_millis() as i64;
+        if remaining <= 0 {
+            timed_out = true;
+            break;
+        }
+        let mut pfd = libc::pollfd { fd: fds[0], events: libc::POLLIN, revents: 0 };
+        let r = unsafe { libc::poll(&mut pfd, 1, remaining as i32) };
+        if r == 0 {
+            timed_out = true;
+            break;
+        }
+        if r < 0 {
+            continue;
+        }
+        let mut chunk = [0u8; 65536];
+        let n = unsafe { libc::read(fds[0], chunk.as_mut_ptr() as *mut libc::c_void, chunk.len()) };
+        if n <= 0 {
+            break;
+        }
+        buf.extend_from_slice(&chunk[..n as usize]);
+    }
+    if timed_out {
+        unsafe { libc::kill(pid, libc::SIGKILL) };
+    }
+    unsafe { libc::close(fds[0]) };
+    let mut status: i32 = 0;
+    unsafe { libc::waitpid(pid, &mut status, 0) };
+    if !timed_out {
+        if let Ok(rep) = serde_json::from_slice::<RunReport>(&buf) {
+            return rep;
+        }
+    }
+    let ctx = shared.read();
+    let how = if timed_out {
+        format!("timeout: no result within {} s", RUN_TIMEOUT_MS / 1000)
+    } else if libc::WIFEXITED(status) && libc::WEXITSTATUS(status) == 97 {
+        "allocator cap exceeded (single request > 1 GiB or total > 768 MiB)".to_string()
+    } else if libc::WIFSIGNALED(status) {
+        format!("killed by signal {}", libc::WTERMSIG(status))
+    } else {
+        format!("exited with status {}", if libc::WIFEXITED(status) { libc::WEXITSTATUS(status) } else { -1 })
+    };
+    let class = if timed_out {
+        "timeout"
+    } else if libc::WIFEXITED(status) && libc::WEXITSTATUS(status) == 97 {
+        "alloc-cap"
+    } else if libc::WIFSIGNALED(status) {
+        match libc::WTERMSIG(status) {
+            libc::SIGSEGV | libc::SIGBUS => "stack-overflow-or-segv",
+            libc::SIGABRT => "abort",
+            _ => "signal",
+        }
+    } else {
+        "exit"
+    };
+    let mut stats = Stats::default();
+    stats.bump(&format!("abort.{class}"));
+    RunReport {
+        verdict: Verdict::Violation(Violation {
+            property: prop.id.into(),
+            oracle: "no_abort".into(),
+            signature: format!("abort:{class}:{}", normalise_ctx(&ctx)),
+            step: 0,
+            detail: format!("the process running this schedule died: {how}; last context: {ctx}"),
+        }),
+        stats,
+        nontrivial: None,
+        steps: 0,
+        interleaving: 0,
+        state_digest: 0,
+        clock_span: 0,
+    }
 }
